@@ -287,6 +287,42 @@ Example c16_setid_redelivery_witness :
                      bulk "last-delivered-id"; bulk "5-0"]]].
 Proof. vm_compute. reflexivity. Qed.
 
+(** ---- open findings in the neighbourhood (the model follows the code) ---- *)
+(** class xreadgroup-missing-key: a key that does not exist is skipped silently (Redis: NOGROUP) *)
+Example c16_missing_key_refuted :
+  fst (run_cmds 0 empty_db [cmd ["XREADGROUP"; "GROUP"; "g"; "c1"; "STREAMS"; "nokey"; ">"];
+                            cmd ["XREADGROUP"; "GROUP"; "g"; "c1"; "STREAMS"; "nokey"; "0"]])
+  = [FArray []; FArray []].
+Proof. vm_compute. reflexivity. Qed.
+(** class xpending-consumer-range: with a consumer name the extended XPENDING ignores the range *)
+Example c16_xpending_consumer_range_refuted :
+  fst (run_cmds 0 empty_db [cmd ["XADD"; "s"; "1-0"; "a"; "1"]; cmd ["XADD"; "s"; "2-0"; "a"; "2"];
+                            cmd ["XGROUP"; "CREATE"; "s"; "g"; "0"];
+                            cmd ["XREADGROUP"; "GROUP"; "g"; "c1"; "STREAMS"; "s"; ">"];
+                            cmd ["XPENDING"; "s"; "g"; "2-0"; "2-0"; "10"; "c1"];
+                            cmd ["XPENDING"; "s"; "g"; "2-0"; "2-0"; "10"]])
+  = [bulk "1-0"; bulk "2-0"; r_ok;
+     FArray [FArray [bulk "s"; FArray [entry1 "1-0" "a" "1"; entry1 "2-0" "a" "2"]]];
+     FArray [FArray [bulk "1-0"; bulk "c1"; FInt 0; FInt 1]; FArray [bulk "2-0"; bulk "c1"; FInt 0; FInt 1]];
+     FArray [FArray [bulk "2-0"; bulk "c1"; FInt 0; FInt 1]]].
+Proof. vm_compute. reflexivity. Qed.
+(** class xreadgroup-max-id-marker: the explicit ID u64::MAX-u64::MAX is the handler's marker
+    for ">" ([c16_read_own] carries the side condition [sid_eqb after sid_max = false]) *)
+Example c16_max_id_marker_refuted :
+  fst (run_cmds 0 empty_db [cmd ["XADD"; "s"; "1-0"; "a"; "1"]; cmd ["XGROUP"; "CREATE"; "s"; "g"; "0"];
+                            cmd ["XREADGROUP"; "GROUP"; "g"; "c1"; "STREAMS"; "s"; "18446744073709551615-18446744073709551615"];
+                            cmd ["XPENDING"; "s"; "g"]])
+  = [bulk "1-0"; r_ok; FArray [FArray [bulk "s"; FArray [entry1 "1-0" "a" "1"]]];
+     FArray [FInt 1; bulk "1-0"; bulk "1-0"; FArray [FArray [bulk "c1"; FInt 1]]]].
+Proof. vm_compute. reflexivity. Qed.
+(** class xreadgroup-count-zero: COUNT 0 returns nothing (Redis: no limit) *)
+Example c16_count_zero_refuted :
+  fst (run_cmds 0 empty_db [cmd ["XADD"; "s"; "1-0"; "a"; "1"]; cmd ["XGROUP"; "CREATE"; "s"; "g"; "0"];
+                            cmd ["XREADGROUP"; "GROUP"; "g"; "c1"; "COUNT"; "0"; "STREAMS"; "s"; ">"];
+                            cmd ["XREADGROUP"; "GROUP"; "g"; "c1"; "STREAMS"; "s"; ">"]])
+  = [bulk "1-0"; r_ok; FArray []; FArray [FArray [bulk "s"; FArray [entry1 "1-0" "a" "1"]]]].
+Proof. vm_compute. reflexivity. Qed.
+
 (** formerly class xpending-inverted-range (fixed by 8b811fd): an inverted range selects
     nothing; XPENDING is total *)
 Theorem c16_xpending_range_total : forall l st en, sid_lt en st -> pel_range l st en = [].
